@@ -196,12 +196,17 @@ def keyEntries (k : String × List String) : List (List Char) :=
   if k.2.isEmpty then [formatEndpoint anyMethodRegex k.1.toList]
   else k.2.map fun m => formatEndpoint m.toList k.1.toList
 
+/-- An endpoint policy: its remedies and diagnoses, each with its `enabled` flag, in declaration order. -/
 structure Policy where
   name : String
   method : String
   url : String
-  enabled : Bool
+  rem : List Bool
+  diag : List Bool
 deriving DecidableEq, Repr
+
+/-- Some plugin of the endpoint is enabled (then the engine applies it to the requests the endpoint matches). -/
+def Policy.enabled (p : Policy) : Bool := p.rem.any id || p.diag.any id
 
 inductive Cfg where
   | flows (fs : List Flow)
@@ -216,7 +221,9 @@ def manageAll : Cfg → Bool
 /-- `ManagedEndpoints` (as a multiset; the Go side ranges over a map). -/
 def registered : Cfg → List (List Char)
   | .flows fs => (dedup (fs.map Flow.key)).flatMap keyEntries
-  | .policies ps _ => (ps.filter (·.enabled)).map fun p => formatEndpoint p.method.toList p.url.toList
+  | .policies ps _ =>
+    -- `BuildHAProxyEndpointsRequest`: one entry per ENABLED remedy, then per enabled diagnosis, of every endpoint
+    ps.flatMap fun p => ((p.rem.filter id) ++ (p.diag.filter id)).map fun _ => formatEndpoint p.method.toList p.url.toList
 
 /-! ### 5. The proxy's `is_managed` -/
 
@@ -269,12 +276,13 @@ def getFlow (ft : FTree) (method url : String) : List String :=
 /-! ### 4b. Policy mode: the endpoint policy tree (C13 model) -/
 
 def Policy.endpoint (p : Policy) : C13.Endpoint :=
-  ⟨p.method, p.url, splitURL p.url, [], [⟨p.name, p.enabled⟩]⟩
+  ⟨p.method, p.url, splitURL p.url, p.rem.map (fun e => ⟨p.name, 0, e⟩), p.diag.map (fun e => ⟨p.name, e⟩)⟩
 
 def buildPolicies (ps : List Policy) : Except C13.BuildErr C13.PTree := C13.build (ps.map Policy.endpoint)
 
-/-- Names of the endpoint policies with an enabled plugin that the engine applies to the request. -/
+/-- Names of the endpoint policies of which the engine applies at least one enabled plugin to the request
+    (`getRemedies` / `getDiagnoses`: the enabled ones of the policy the lookup selects for the method). -/
 def selectPolicies (pt : C13.PTree) (method url : String) : List String :=
-  (C13.getDiagnoses pt ⟨[], []⟩ method (splitURL url)).1
+  List.foldl (fun acc a => if a ∈ acc then acc else acc ++ [a]) [] ((C13.getRemedies pt ⟨[], []⟩ method (splitURL url)).1 ++ (C13.getDiagnoses pt ⟨[], []⟩ method (splitURL url)).1)
 
 end LunarVerif.C14
